@@ -139,7 +139,5 @@ func init() {
 	})
 }
 
-// placeholders filled in by later files
-func monitorsExtra(m *mon) {}
 
 var _ = strconv.Itoa
